@@ -63,7 +63,10 @@ def bind_jobs(ctx):
     nsig = len(B.sigs())
     jobs = []
     for k in range(nproc):
-        jobs.append({"sigs": list(range(k, nsig, nproc)), "nreal": ctx.pick(1, 2),
+        sl = list(range(k, nsig, nproc))
+        if DEV and os.environ.get("C03_SIGSTEP"):
+            sl = sl[::int(os.environ["C03_SIGSTEP"])]           # triage only: a subsample of the signatures
+        jobs.append({"sigs": sl, "nreal": ctx.pick(1, 2),
                      "py_mod": ctx.pick(8, 1), "py_rem": (ctx.seed + k) % ctx.pick(8, 1),
                      "shapes_slice": [k, nproc], "shapes_py_mod": ctx.pick(4, 1), "corrupt": 12,
                      "out": os.path.join(ctx.scratch, "bind_%d.json" % k)})
